@@ -551,3 +551,102 @@ def derived_relations(system: Any) -> List[str]:
                 bad.append(f"PagesShareFileName:{u}:{urls[u]}:{k}")
             urls[u] = k
     return bad
+
+
+# ------------------------------------------------------------------ expectations derived from the PROPERTY text
+
+def module_index_by_qname(p: Dict[str, Any]) -> Dict[str, int]:
+    return {".".join(mod_path(p, i)): i + 1 for i in range(len(p["mods"]))}
+
+
+def resolve_import_target(p: Dict[str, Any], mi: int, lvl: int, m: Sequence[str]) -> Optional[str]:
+    """Python's rule for `from <lvl dots><m> import ...` written in module mi (1-based)."""
+    if lvl == 0:
+        return ".".join(m)
+    me = mod_path(p, mi - 1)
+    pkg = me if p["mods"][mi - 1]["pkg"] else me[:-1]
+    if lvl - 1 > len(pkg):
+        return None
+    base = pkg[:len(pkg) - (lvl - 1)]
+    if not base:
+        return None
+    return ".".join(list(base) + list(m))
+
+
+def top_level_defs(p: Dict[str, Any], mi: int) -> Dict[str, Tuple[str, int]]:
+    """name -> (kind, pc) of the LAST module-level definition of that name in module mi."""
+    out: Dict[str, Tuple[str, int]] = {}
+    depth = 0
+    for pc, op in enumerate(p["mods"][mi - 1]["ops"], 1):
+        if op["k"] == "endclass":
+            depth -= 1
+            continue
+        if depth == 0 and op["k"] in ("class", "def", "var"):
+            out[op["n"]] = (op["k"], pc)
+        if depth == 0 and op["k"] in ("from",):
+            out.pop(op["as"], None)
+        if depth == 0 and op["k"] in ("alias", "import"):
+            out.pop(op.get("n") or op.get("as") or op["m"][0], None)
+        if op["k"] == "class":
+            depth += 1
+    return out
+
+
+def members_of(p: Dict[str, Any], mi: int, pc: int) -> List[Tuple[str, int]]:
+    """direct members (name, pc) of the class opened at ops[pc]."""
+    ops = p["mods"][mi - 1]["ops"]
+    out: Dict[str, int] = {}
+    depth = 0
+    for j in range(pc, len(ops)):          # ops[pc] is the op after the class op (1-based pc)
+        op = ops[j]
+        if op["k"] == "endclass":
+            if depth == 0:
+                break
+            depth -= 1
+            continue
+        if depth == 0 and op["k"] in ("class", "def", "var"):
+            out[op["n"]] = j + 1
+        if op["k"] == "class":
+            depth += 1
+    return list(out.items())
+
+
+def expected_reexports(p: Dict[str, Any]) -> List[Dict[str, Any]]:
+    """
+    The re-exports the property C07 talks about: module R imports name `orig` from project module O (not listing it
+    in its own __all__) where O defines it, and lists the bound name in R.__all__; exactly one such R per object.
+    """
+    idx = module_index_by_qname(p)
+    found: List[Dict[str, Any]] = []
+    for ri, R in enumerate(p["mods"], 1):
+        if not R["hasAll"] or R["broken"]:
+            continue
+        depth = 0
+        for op in R["ops"]:
+            if op["k"] == "class":
+                depth += 1
+            elif op["k"] == "endclass":
+                depth -= 1
+            if depth or op["k"] not in ("from", "star"):
+                continue
+            tq = resolve_import_target(p, ri, op["lvl"], op["m"])
+            oi = idx.get(tq or "")
+            if not oi or oi == ri or p["mods"][oi - 1]["broken"]:
+                continue
+            O = p["mods"][oi - 1]
+            defs = top_level_defs(p, oi)
+            if op["k"] == "from":
+                pairs = [(op["orig"], op["as"])]
+            else:
+                names = O["all"] if O["hasAll"] else [n for n in defs if not n.startswith("_")]
+                pairs = [(n, n) for n in names]
+            for orig, as_ in pairs:
+                if as_ in R["all"] and orig in defs and not (O["hasAll"] and orig in O["all"]):
+                    kind, pc = defs[orig]
+                    found.append({"site": [oi, pc], "kind": kind, "old": f"{tq}.{orig}",
+                                  "new": ".".join(mod_path(p, ri - 1)) + "." + as_, "rex": ri, "origin": oi,
+                                  "members": members_of(p, oi, pc) if kind == "class" else []})
+    by_site: Dict[Tuple[int, int], List[Dict[str, Any]]] = {}
+    for f in found:
+        by_site.setdefault(tuple(f["site"]), []).append(f)
+    return [v[0] for v in by_site.values() if len(v) == 1]
